@@ -896,10 +896,9 @@ func init() {
 		if v, ok := fr.i.path.fs["parseip:"+s]; ok {
 			return append([]value(nil), v.([]value)...)
 		}
-		if s == "127.0.0.1" {
-			return []value{byte(0), byte(0), byte(0), byte(0), byte(0), byte(0), byte(0), byte(0), byte(0), byte(0), byte(0xff), byte(0xff), byte(127), byte(0), byte(0), byte(1)}
-		}
-		return []value(nil)
+		// a concrete text the harness did not register: the real parser, from its SSA
+		fr2 := &frame{i: fr.i, caller: fr.caller, fn: fr.fn}
+		return runBody(fr2, args)
 	}
 	externals["net.ParseCIDR"] = func(fr *frame, args []value) value {
 		s, ok := args[0].(string)
@@ -911,7 +910,12 @@ func init() {
 			var n value = structure{append([]value(nil), st.netIP.([]value)...), append([]value(nil), st.mask.([]value)...)}
 			return tuple{append([]value(nil), st.ip.([]value)...), &n, iface{}}
 		}
-		return tuple{[]value(nil), (*value)(nil), fr.i.newError("invalid CIDR address: " + s)}
+		if strings.HasPrefix(s, "vp-") {
+			return tuple{[]value(nil), (*value)(nil), fr.i.newError("invalid CIDR address: " + s)}
+		}
+		// a concrete text the harness did not register: the real parser, from its SSA
+		fr2 := &frame{i: fr.i, caller: fr.caller, fn: fr.fn}
+		return runBody(fr2, args)
 	}
 }
 
